@@ -84,6 +84,9 @@ pub enum ArrOp {
 #[derive(Clone, Debug)]
 pub enum Op {
     Read(ElemTy),
+    /// the dedicated methods read_u8 / read_i8 / read_u16be / read_i16be / read_u32be / read_i32be /
+    /// read_u64be / read_i64be (the generic `read::<T>()` path is `Read`)
+    ReadMethod(u8),
     Array(ElemTy, Ctor, Vec<ArrOp>),
     ReadScope(Num),
     ReadSlice(Num),
@@ -175,6 +178,7 @@ fn ctor() -> impl Strategy<Value = Ctor> {
 fn op() -> impl Strategy<Value = Op> {
     prop_oneof![
         8 => elem().prop_map(Op::Read),
+        4 => (0u8..8).prop_map(Op::ReadMethod),
         8 => (elem(), ctor(), proptest::collection::vec(arr_op(), 0..6)).prop_map(|(e, c, o)| Op::Array(e, c, o)),
         2 => num().prop_map(Op::ReadScope),
         2 => num().prop_map(Op::ReadSlice),
@@ -411,6 +415,54 @@ where
         st.note_result(false);
     }
     st.check_cursor(&format!("read::<{}>", name))
+}
+
+/// `read_u8` ... `read_i64be`: value at the cursor and cursor + size, or an error and no effect.
+fn read_method<'a>(st: &mut St<'a>, kind: u8) -> CaseResult {
+    let (name, size): (&str, usize) = match kind % 8 {
+        0 => ("read_u8", 1),
+        1 => ("read_i8", 1),
+        2 => ("read_u16be", 2),
+        3 => ("read_i16be", 2),
+        4 => ("read_u32be", 4),
+        5 => ("read_i32be", 4),
+        6 => ("read_u64be", 8),
+        _ => ("read_i64be", 8),
+    };
+    let rem = st.rem();
+    let r: Result<i128, String> = match kind % 8 {
+        0 => st.ctxt.read_u8().map(|v| v as i128).map_err(|e| format!("{:?}", e)),
+        1 => st.ctxt.read_i8().map(|v| v as i128).map_err(|e| format!("{:?}", e)),
+        2 => st.ctxt.read_u16be().map(|v| v as i128).map_err(|e| format!("{:?}", e)),
+        3 => st.ctxt.read_i16be().map(|v| v as i128).map_err(|e| format!("{:?}", e)),
+        4 => st.ctxt.read_u32be().map(|v| v as i128).map_err(|e| format!("{:?}", e)),
+        5 => st.ctxt.read_i32be().map(|v| v as i128).map_err(|e| format!("{:?}", e)),
+        6 => st.ctxt.read_u64be().map(|v| v as i128).map_err(|e| format!("{:?}", e)),
+        _ => st.ctxt.read_i64be().map(|v| v as i128).map_err(|e| format!("{:?}", e)),
+    };
+    if rem >= size {
+        let raw = be(&st.buf[st.pos()..st.pos() + size]);
+        let exp: i128 = match kind % 8 {
+            0 | 2 | 4 | 6 => raw as i128,
+            1 => raw as u8 as i8 as i128,
+            3 => raw as u16 as i16 as i128,
+            5 => raw as u32 as i32 as i128,
+            _ => raw as i64 as i128,
+        };
+        match r {
+            Ok(v) if v == exp => {}
+            Ok(v) => return Err(fail("decode", format!("{} at {} returned {}, big-endian value is {}", name, st.pos(), v, exp))),
+            Err(e) => return Err(fail("spurious-eof", format!("{} with {} bytes available failed: {}", name, rem, e))),
+        }
+        st.off += size;
+        st.note_result(true);
+    } else {
+        if let Ok(v) = r {
+            return Err(fail("read-past-end", format!("{} with only {} bytes available returned {}", name, rem, v)));
+        }
+        st.note_result(false);
+    }
+    st.check_cursor(name)
 }
 
 fn resolve_idx(i: &Idx, len: usize) -> usize {
@@ -770,6 +822,7 @@ pub fn check_case(case: &Case, rec: &mut Rec) -> CaseResult {
     for op in &case.ops {
         match op {
             Op::Read(e) => dispatch!(*e, read_typed, &mut st)?,
+            Op::ReadMethod(k) => read_method(&mut st, *k)?,
             Op::Array(e, c, ops) => {
                 match c {
                     Ctor::Array(n) | Ctor::UptoHack(n) | Ctor::Dep(n, _) | Ctor::Stride(n, _) => {
@@ -1002,7 +1055,8 @@ pub fn case_from_bytes(data: &[u8]) -> arbitrary::Result<Case> {
     let mut ops = Vec::new();
     while !u.is_empty() && ops.len() < 40 {
         ops.push(match u.int_in_range(0u8..=13)? {
-            0..=3 => Op::Read(u_elem(&mut u)?),
+            0..=2 => Op::Read(u_elem(&mut u)?),
+            3 => Op::ReadMethod(u.int_in_range(0u8..=7)?),
             4..=7 => {
                 let e = u_elem(&mut u)?;
                 let c = match u.int_in_range(0u8..=3)? {
